@@ -69,7 +69,8 @@ PROPS = {
              "algorithm's format id), other extensions, sub-directories with user-file names, .tmp as directory or file, "
              "invalid-named files, double extensions; Check/List/ListFull/Exists/Init observed. Histories from an "
              "initialised store that never remove or demote the last administrator: Check, no-two-files and empty work "
-             "area after every operation.",
+             "area after every operation; for stretches of a history the work area .tmp is a regular file (every write "
+             "fails after it opened / reserved its target and must change nothing).",
         trusted=[T_CRYPTO, T_FS],
         partial=["the CLI gate (exit status 3 unless --do-check=false) is decided by the run (built binary on "
                  "generated invalid directories), not by a theorem"],
@@ -141,7 +142,7 @@ PROPS = {
     ),
     "C08": dict(
         modules=["Whawty.Props.C08"],
-        suites=[("hdrv", "c08")],
+        suites=[("hdrv", "c08"), ("hdrv", "c08k")],
         level_text="Persistence machine (file data durable at fsync, directory operations at fsync of the directory, any "
                    "subset of pending directory operations may survive, un-synced data is torn). crashAtomic_sound: the "
                    "Boolean checker implies the statement for EVERY system-call boundary and EVERY subset; "
@@ -150,11 +151,14 @@ PROPS = {
                    "compares the mutation skeleton with the model's.",
         rule="add / update / init in a child process under strace (write payloads captured), stores with and without "
              "auxiliary data and with or without an existing .tmp; exhaustive over all prefixes x all subsets of pending "
-             "directory operations of each trace.",
+             "directory operations of each trace; kill replays: the real operation is re-run once per file-system call and "
+             "killed with SIGKILL on entry of that call — the directory left behind is judged directly (old / new / absent "
+             "or empty reservation, others untouched, residue only in .tmp, check still passes, old password works) and "
+             "compared with killView of the killed run's own trace.",
         trusted=["the standard abstract persistence model (not a model of ext4/xfs); 'torn' over-approximates partial writes",
                  "strace output and the Go trace parser (copy_file_range and read offsets are modelled)", T_GO],
-        partial=["process-kill replays of the real code at every syscall are not yet run (kill views are computed by the "
-                 "checker from the trace)"],
+        partial=["power-loss states (lost directory operations, torn data) are the persistence model's, computed by the "
+                 "verified checker from the real trace; only process kills are replayed on the real file system"],
     ),
     "C09": dict(
         modules=["Whawty.Props.C09"],
@@ -195,7 +199,7 @@ PROPS = {
                    "agents with thresholds placed around the observed estimate, compared with zxcvbn-go called directly.",
         rule="Condition strings from a grammar mutator (kinds, operators, thresholds incl. 2^64-1/2^64/negative/float, "
              "ASCII white-space variants, extra fields); 6 (40) agents x 60 (300) writes of 51 passwords (dictionary "
-             "words, user-name derived, strong, and transformation-sensitive ones: a weak body with a dictionary word "
+             "words, user-name derived, strong, 257..400-byte weak runs, and transformation-sensitive ones: a weak body with a dictionary word "
              "straddling byte 8..128, a weak run followed by a strong tail, white-space / case / NUL variants) through "
              "10 write paths.",
         trusted=["zxcvbn-go's estimate (score, entropy, crack time) is a parameter of the model", T_CRYPTO],
@@ -312,12 +316,14 @@ PROPS = {
              "(OK/NO with messages, near misses of OK, wrong announced lengths, over-long), replies cut at a random "
              "byte then close/reset, 1-byte dribble, header/body split, trailing bytes, silence and late answers "
              "beyond the 1 s timeout, early close, reset, unreachable socket, no password available; NUL-free replies of "
-             "252..4000 bytes (announced length = body, 256, 257, 258, 65535) under the option sets that log the reply.",
+             "252..4000 bytes (announced length = body, 256, 257, 258, 65535) under the option sets that log the reply; a "
+             "signal interrupting the wait for the reply (before any byte / between header and body, then answer, "
+             "silence, close or reset); a fifth of all cases entered with a stale EINTR in the caller's errno.",
         trusted=["C compiler and libc; Linux-PAM replaced by stub headers (pam_get_user/pam_get_item/pam_prompt)",
                  "ASan/UBSan as the memory-error oracle"],
         partial=["memory safety and wall-clock bounds are run-time facts: observed with ASan/UBSan and the harness "
-                 "timeout, not proved", "select() with descriptors >= FD_SETSIZE and stale-errno EINTR tests in the "
-                 "read/write loops are outside the model"],
+                 "watchdog (8 s), not proved", "select() with descriptors >= FD_SETSIZE and select() errors other than "
+                 "EINTR are outside the model"],
         assumptions=["the module timeout is 1 s in the harness; delays are chosen away from it (<= 400 ms or >= 1.7 s)"],
     ),
     "C10": dict(
@@ -484,8 +490,13 @@ def run_pam_lines(pamdrv, plines, sw):
         got = [x for x in r.stdout.split("\n") if " => " in x]
         for g in got:
             meta = metas[idx]
-            out.append(g)
             real = g.split(" => ", 1)[1].split()
+            if real and real[0] == "hang":
+                # the harness watchdog: pam_sm_authenticate did not return within 8 s (module timeout: 1 s)
+                out.append("law.C20.returns_within_bounded_time %s => f" % cases[idx])
+                idx += 1
+                continue
+            out.append(g)
             if "expect" in meta:
                 out.append("law.%s %s => %s" % (meta.get("law", "C05.pam_reads_verdict"), cases[idx],
                                                  "t" if real and real[0] == meta["expect"] else "f"))
@@ -497,6 +508,8 @@ def run_pam_lines(pamdrv, plines, sw):
             if real and real[0] == "0":
                 out.append("law.C20.success_only_on_ok %s => %s" % (cases[idx], "t" if script_begins_ok(cases[idx]) else "f"))
             idx += 1
+        if r.returncode == 78:
+            continue  # watchdog exit: reported above, go on with the remaining cases
         if r.returncode != 0 or idx < len(cases) and not got:
             # sanitizer report or crash while running case idx
             if idx < len(cases):
